@@ -239,6 +239,11 @@ def lambdas(draw, depth, cfg):
         return ("lambda", owner, "any", None, None)
     var = draw(st.sampled_from(VARS))
     body = draw(lambda_bodies(depth, cfg, var))
+    if depth > 0 and draw(st.integers(0, 4)) == 0:
+        # an inner lambda that re-binds the same variable name, followed by a use of the outer one
+        inner = ("lambda", ("path", ident(var), draw(st.sampled_from(SAFE_NAMES))), "any", var,
+                 ("cmp", "eq", ("path", ident(var), "n"), ("lit", "int", "1")))
+        body = ("bool", "and", inner, ("cmp", "eq", ("path", ident(var), draw(st.sampled_from(SAFE_NAMES))), ident(var)))
     return ("lambda", owner, "any" if c < 6 else "all", var, body)
 
 
